@@ -34,6 +34,13 @@ TREE = core.hx("TREE")
 HTAG = core.hx("H")
 PANIC = core.hx("PANIC")
 ENV = {"PATH": "/usr/bin"}
+VARIANT = {"clamp_spans": False, "bq_raw": False}     # set by run() from translator/ex_c19.py
+
+
+def with_variant(opts):
+    if VARIANT["bq_raw"]:
+        return (opts + "," if opts else "") + "bqraw"
+    return opts
 
 KF_HEREDOC = "KF-C19-heredoc-token-order"
 KF_BQ = "KF-C19-backquote-escape-offsets"
@@ -162,7 +169,9 @@ def run_harness(harness, lines, hang_ms=2000, confirm=True):
 # ------------------------------------------------------------------ one batch: code, model, comparison
 
 def eval_batch(args):
-    harness, runner, cases, want_model, suspects_too = args
+    harness, runner, cases, want_model, suspects_too, variant = args
+    VARIANT.update(variant)
+    cases = [[c[0], c[1], with_variant(c[2])] for c in cases]
     suspects = []
     if not suspects_too:
         suspects = [c for c in cases if hang_class(c[0])]
@@ -200,10 +209,16 @@ def eval_batch(args):
         if ml is not None:
             q = ml.rfind(" " + HTAG + " ")
             mp = ml[:q] if q >= 0 else ml
+            aligned = None
             try:
-                hcode = int(core.unhx(ml[q + len(HTAG) + 2:])) if q >= 0 else None
+                hf = ml[q + len(HTAG) + 2:].split(" ") if q >= 0 else []
+                hcode = int(core.unhx(hf[0])) if hf else None
+                aligned = core.unhx(hf[1]) == b"1" if len(hf) > 1 else None
             except ValueError:
                 hcode = None
+            if VARIANT["clamp_spans"] and aligned and hcode in (1, 2, 5):
+                hcode = 0     # the clamped form needs no order: c19_spans_cover_repo_clamped applies
+            res["aligned"] = res.get("aligned", 0) + (1 if aligned else 0)
             cpn = PANIC if cp.startswith(PANIC) else cp
             if cpn != mp:
                 res["mism"].append({"line": c[0], "cursor": c[1], "opts": c[2], "code": " ".join(core.dec_line(cp))[:300],
@@ -278,6 +293,7 @@ def merge(a, b):
     a["panic"] += b["panic"]
     a["hang"] = a.get("hang", 0) + b.get("hang", 0)
     a["hyp_fail_spec_ok"] += b["hyp_fail_spec_ok"]
+    a["aligned"] = a.get("aligned", 0) + b.get("aligned", 0)
     return a
 
 
@@ -453,7 +469,9 @@ def run_all(ctx, batches, want_model=True, procs=8):
     tot = empty()
     samples = []
     suspects = []
-    work = ((ctx.harness, ctx.runner, b, want_model, False) for b in batches)
+    from translator import ex_c19
+    VARIANT.update(ex_c19.variant())
+    work = ((ctx.harness, ctx.runner, b, want_model, False, dict(VARIANT)) for b in batches)
     with multiprocessing.Pool(procs) as pool:
         for r in pool.imap_unordered(eval_batch, work):
             if r.get("model_lines") and len(samples) < 60:
@@ -465,7 +483,7 @@ def run_all(ctx, batches, want_model=True, procs=8):
         picked = suspects[:2] + ctx.rng.sample(suspects[2:], min(k - 2, len(suspects) - 2)) if len(suspects) > k else suspects
         tot["suspects_total"] = len(suspects)
         tot["suspects_run"] = len(picked)
-        for r in pool.imap_unordered(eval_batch, ((ctx.harness, ctx.runner, [c], want_model, True) for c in picked)):
+        for r in pool.imap_unordered(eval_batch, ((ctx.harness, ctx.runner, [c], want_model, True, dict(VARIANT)) for c in picked)):
             merge(tot, r)
     return tot, samples
 
@@ -492,8 +510,8 @@ def run(ctx):
     if xbad:
         raise core.CheckBroken("extracted runner and vm_compute disagree on %r: %r vs %r" % (xcases[xbad[0]], ce[xbad[0]], rnd[xbad[0]][2]))
     # the Coq spec (spec_code) agrees with the python oracle on the code's spans of the fixed cases
-    fc = fixed_cases()
-    impl = ctx.impl("hl", fc, env=ENV)
+    fc = [c for c in fixed_cases() if not hang_class(c[0])]
+    impl = ctx.impl("hl", [[c[0], c[1], with_variant(c[2])] for c in fc], env=ENV)
     sc, exp = [], []
     for c, o in zip(fc, impl):
         p = o.find(" " + TREE + " ")
@@ -518,6 +536,8 @@ def run(ctx):
         "distribution": {"spans_per_result(-1=panic)": {str(k): v for k, v in sorted(tot["spans_hist"].items())},
                          "hypothesis_code(0=theorem applies)": {str(k): v for k, v in sorted(tot["hyp"].items(), key=lambda x: str(x[0]))},
                          "hypothesis_failed_but_property_held": tot["hyp_fail_spec_ok"],
+                         "all_positions_aligned(hypothesis of the clamped form)": tot.get("aligned", 0),
+                         "code_variant(translator)": dict(VARIANT),
                          "panics": tot["panic"], "hangs": tot.get("hang", 0),
                          "lines_predicted_to_loop(hang_class)": tot.get("suspects_total", 0),
                          "of_which_run(one per process)": tot.get("suspects_run", 0),
